@@ -65,7 +65,7 @@ def main():
     muts = [m for m in muts if m["id"] not in done]
     if a.limit:
         muts = muts[: a.limit]
-    rc, out = run(["/verif/bin/mqttverif", "list"], "/verif")
+    rc, out = run([os.environ.get("BIN", "/verif/bin/mqttverif"), "list"], "/verif")
     props = [l.split(":")[0] for l in out.splitlines() if l.strip()]
     q = queue.Queue()
     for m in muts:
@@ -112,7 +112,7 @@ def main():
                         else:
                             res["flaky"] = fails
                             fired = {}
-                            rc, out = run(["/verif/bin/mqttverif", "check", "-p", "ALL", "-repo", wt, "-no-evidence"], "/verif", 600)
+                            rc, out = run([os.environ.get("BIN", "/verif/bin/mqttverif"), "check", "-p", "ALL", "-repo", wt, "-no-evidence"], "/verif", 600)
                             if "VIOLATION" in out:
                                 fired["ALL"] = [l.split("construct", 1)[1].strip() for l in out.splitlines() if l.strip().startswith("construct")][:6]
                             res["fired"] = fired
